@@ -141,6 +141,24 @@ def _jacobian(ctx, pydrex, case):
         ctx.check("trace_free", okt, pt, key=keyt, explained=expl, trace=tr, scale=sc)
         # the velocity field itself is divergence free (independent of the gradient callable)
         ctx.check("velocity_divergence_free", abs(float(np.trace(J))) <= tol, pt, div=float(np.trace(J)))
+    # axis assignment as documented: first letter = direction of the velocity (shear) / horizontal axis
+    amp = case["amp"]
+    ev = np.zeros(3)
+    ev[iv] = 1.0
+    eh = np.zeros(3)
+    eh[ih] = 1.0
+    if name == "shear":
+        uu = np.asarray(u(np.nan, 3.0 * ev + 0.5 * eh))
+        okax = abs(uu[ih] - 3.0 * amp) <= 1e-12 * amp and uu[iv] == 0 and uu[io] == 0
+    elif name == "cell":
+        uu = np.asarray(u(np.nan, 0.5 * size * ev))      # top of the cell: edge velocity along +horizontal
+        okax = abs(uu[ih] - amp) <= 1e-9 * amp and abs(uu[iv]) <= 1e-9 * amp
+        uu2 = np.asarray(u(np.nan, 0.5 * size * eh))     # right edge: edge velocity along -vertical
+        okax = okax and abs(uu2[iv] + amp) <= 1e-9 * amp and abs(uu2[ih]) <= 1e-9 * amp
+    else:
+        uu = np.asarray(u(np.nan, 1.0 * eh - 1e-12 * ev))  # at the surface the material moves with the plate along +horizontal
+        okax = abs(uu[ih] - amp) <= 1e-6 * amp and abs(uu[iv]) <= 1e-6 * amp
+    ctx.check("axis_assignment", bool(okax), case, u=np.asarray(uu).tolist(), ih=ih, iv=iv)
     ctx.case(case, nontrivial=anynz)
     if len(ctx.samples) < 2:
         ctx.sample(case)
